@@ -35,3 +35,16 @@ func (fr *Frame) mapKeyCheck(s *State, m *types.Map, k *Val, pos token.Pos) {
 	f := fr.eng.hashableSym()
 	fr.vc.oblige(s, "hashkey", fmt.Sprintf("(%s (tagof %s))", f, k.S), pos, "map key of interface type may hold an unhashable dynamic type (runtime panic)")
 }
+
+// jsonFuncs declares the uninterpreted decoding functions for target type t.
+func (e *Engine) jsonFuncs(t types.Type) (dec, errf string) {
+	srt := e.sortOf(t)
+	k := sortKey(srt)
+	dec, errf = "json_"+k, "json_err_"+k
+	if _, ok := e.syms.syms[dec]; !ok {
+		e.syms.add(dec, fmt.Sprintf("(declare-fun %s ((Seq Int)) %s)", dec, srt))
+		e.syms.add(errf, fmt.Sprintf("(declare-fun %s ((Seq Int)) Int)", errf))
+	}
+	e.trustedUsed["model: encoding/json.Unmarshal is a deterministic function of its input bytes"] = true
+	return
+}
